@@ -391,6 +391,7 @@ class Evaluator:
         self._closure_terms = {}
         self._annot_cache = {}
         self._static_cache = {}
+        self._doc_cache = {}
         self._kwdicts = {}
 
     # ------------------------------------------------------------------ contexts / entries
@@ -439,6 +440,34 @@ class Evaluator:
         o.mutable = True
         o.origin = 'self'
         return o
+
+    def doc_shape(self, fn, p):
+        """documented shape of parameter p: 'p: Shape (..., N, D)' / ':param p: ... with shape (..., a, b)'"""
+        import re
+        key = (fn.qual, p)
+        if key in self._doc_cache:
+            return self._doc_cache[key]
+        doc = fn.doc or ''
+        res = None
+        m = re.search(r'^[ \t]*(?::param\s+)?' + re.escape(p) + r'\s*:(.*?)(?=^[ \t]*(?::param|:return|:type|:raises|Returns|Raises|[A-Za-z_][A-Za-z_0-9]*\s*:)|\Z)', doc, re.S | re.M)
+        if m:
+            block = m.group(1)
+            shapes = []
+            for sm in re.finditer(r'[Ss]hape[s]?:?\s*(\([^()]*\))', block):
+                sp = parse_shape_text(sm.group(1))
+                if sp is not None:
+                    shapes.append(sp)
+            if not shapes:
+                sm = re.match(r'\s*(\([^()]*\))\s*$', block.strip().split('\n')[0]) if block.strip() else None
+                if sm:
+                    sp = parse_shape_text(sm.group(1))
+                    if sp is not None:
+                        shapes.append(sp)
+            ambiguous = re.search(r'\)\s*(?:or|/)\s*\(', block) is not None
+            if shapes and all(s_ == shapes[0] for s_ in shapes) and not ambiguous:
+                res = Shape.from_text(shapes[0])
+        self._doc_cache[key] = res
+        return res
 
     def annotated(self, fn, p, v):
         """use a parameter annotation naming a repo class: the value is an instance of it or of a subclass"""
@@ -490,7 +519,12 @@ class Evaluator:
                         o = self.init_obj(fn.cls)
                     bind[p] = AV(kind=frozenset(['obj']), obj=o, deps=frozenset([('param', p)]))
             else:
-                bind[p] = self.annotated(fn, p, self.param_av(fn, p))
+                v = self.annotated(fn, p, self.param_av(fn, p))
+                if v.shape is None and v.obj is None:
+                    ds = self.doc_shape(fn, p)
+                    if ds is not None:
+                        v = v.replace(shape=ds)
+                bind[p] = v
         if fn.vararg:
             bind['*' + fn.vararg] = self.param_av(fn, '*' + fn.vararg, kind=frozenset(['tuple']))
         if fn.kwarg:
